@@ -2,7 +2,7 @@
 # usage: tools/seed_eval.sh <seeded-dir> [check ids...]   (default: the property in meta.json)
 # Applies <seeded-dir>/patch.diff to /repo, runs the quick check(s), reverts.  Prints one line per check.
 set -u
-d="$1"; shift
+d="$(cd "$1" && pwd)"; shift
 ids="$*"
 if [ -z "$ids" ]; then ids=$(python3 -c "import json,sys;print(json.load(open('$d/meta.json'))['property'])"); fi
 cd /repo || exit 2
